@@ -209,7 +209,7 @@ func runE2EProperty(t *testing.T, prop, test string) {
 			run(c, t.Fatalf)
 		}
 	}
-	rapid.Check(t, func(rt *rapid.T) {
+	checkBudget(t, func(rt *rapid.T) {
 		h := GenSProgram(rt, c09HistCfg)
 		var laggards []int
 		if prop != "C09" && h.Nodes >= 3 && rapid.IntRange(0, 2).Draw(rt, "lastwrite") > 0 {
